@@ -24,6 +24,27 @@ CHECKS = {
  "C16": ("bounded exhaustive enumeration of all ordered pairs (and triples for transitivity) of values per supported type through every comparison entry point, against PartialEq/Ord",
          "All ordered pairs of slices over {MIN,mid,MAX} up to the length bound for each of the 14 primitive element types, all pairs of strings, slices of strings/byte slices, boundary scalars (u8/i8 complete), NonZero, ranges, Ordering, and all Option combinations, through every eq_*/cmp_* function, CmpWrapper, const_eq!/const_cmp!/const_eq_for!/const_cmp_for! (all four argument forms) and assertc_eq!/assertc_ne!; plus antisymmetry/consistency on all pairs and transitivity on all triples.",
          "3/C16"),
+ "C06": ("bounded exhaustive enumeration of all (string, delimiter) pairs x every split iterator kind, stepped to exhaustion with the remainder checked after every step, lock-step against std's split family",
+         "Every input x delimiter (str and char, incl. empty, adjacent, leading, trailing, overlapping, multi-byte) up to the bounds through split, rsplit, split_terminator, rsplit_terminator and the reversed types: every piece compared with std by content and address, remainder() after every step compared with the not-yet-split part of the input derived from std's piece positions, termination enforced by a step cap.",
+         "3/C06"),
+ "C07": ("complete enumeration of every char / every u32 < 0x120000 for the conversions; exhaustive next/next_back history trees on all strings up to a bound, lock-step against str::chars/char_indices",
+         "encode_utf8 on every Unicode scalar value and from_u32 on every u32 below 0x120000 plus boundaries (complete); for chars/char_indices and their reversed types every interleaving of front and back steps on all strings up to the bound over one char per UTF-8 length and on context strings for a boundary-complete char set, comparing items, offsets and as_str() by address at every node.",
+         "3/C07"),
+ "C08": ("exhaustive exploration of every next/next_back history (tree search from copies) of every slice iterator kind x direction variant x size x length, lock-step against the std iterator of the same name",
+         "For every slice length up to the bound, every size 0..=len+1 (0 must panic), element types incl. a ZST and a Drop type, the eight iterator kinds in forward, rev() and rev().rev() form: every sequence of front/back steps until both ends report None, children made from copy(); items, as_slice() and remainder() compared with std by address and length at every node.",
+         "3/C08"),
+ "C09": ("explicit-state graph search with hooked canonical states: every (start,end) pair of the 8-bit types is a state of each range iterator type and both transitions are compared with std on the abstraction (complete bisimulation); boundary closures for wider types; hook-independent history trees",
+         "u8/i8: all 65536 (start,end) pairs x 4 iterator types x {next,next_back} with the post-state read through the __verif_bounds hook and compared with the std range built from the abstract state - closed under both transitions, hence every interleaving on every 8-bit range; wider integers and char: closure from MIN/MAX/0/surrogate-gap neighbourhoods to a depth bound; RangeFrom from every start; for_each!/eval!/for_range!/collect_const! over all 8-bit pairs; plus value-only history trees that do not rely on the hook.",
+         "3/C09"),
+ "C12": ("bounded exhaustive input enumeration (every value of the 8/16-bit types, all short strings over a digit/sign/letter alphabet, MIN/MAX neighbourhoods per type) against str::parse and a big-integer prefix model",
+         "Whole-string parse_* against str::parse (leading '+' rejected), prefix parsing through Parser::parse_* and parse_with! against an optional-minus + longest-digit-run model with checked 128-bit accumulation, for all 12 integer types and bool, with every suffix from a small set; remainder by address, offsets, error kind and error offset checked.",
+         "3/C12"),
+ "C13": ("explicit-state graph search to a fixed point over all reachable Parser states per input (every operation from every state; operations only shrink the remainder, so the closure covers sequences of any length), state invariant checked in every state",
+         "For every input up to the bound and three constructors, BFS over the states (start_offset, end_offset, one-shot flag, direction) under ~80 operations to closure, with shortest traces: in every reached state the remainder must be, by address, original[start..end] with both offsets on char boundaries; every Err must carry the pre-state's start (from-start ops) or end (from-end ops) offset and name that end. A labelled random-walk supplement on long inputs is reported separately.",
+         "3/C13"),
+ "C14": ("same explicit-state graph as C13: every transition compared with the free string functions (by address) and a std-based reference model; split protocols replayed from every initial state",
+         "On every transition of the Parser state graph: post-remainder equals what string::{strip_*,trim*,trim_*_matches,find_skip,rfind_skip} compute from the pre-remainder and what a boring std-based model predicts (split_once/rsplit_once/find/prefix-integer/bool), Ok iff the reference finds something, documented error kind, returned piece/number; repeating split/rsplit/split_terminator/rsplit_terminator from each initial state against str::split/rsplit.",
+         "3/C14"),
 }
 
 NOT_APPLICABLE = {}
